@@ -273,6 +273,30 @@ impl<P: BW6Config, const HARD: u8> Fam for Bw6Fam<P, HARD> {
     }
 }
 
+/// BW6-761 with the *generic* `final_exponentiation_hard_part` of `ec/src/models/bw6/mod.rs`
+/// (the shipped configuration overrides it): same constants, no override.  Reaches the
+/// `T_MOD_R_IS_ZERO == false` branch (Algorithm 4.4) of the generic hard part.
+#[derive(PartialEq, Eq)]
+pub struct Bw6_761Generic;
+impl BW6Config for Bw6_761Generic {
+    const X: <ark_bw6_761::Fq as PrimeField>::BigInt = <ark_bw6_761::Config as BW6Config>::X;
+    const X_IS_NEGATIVE: bool = <ark_bw6_761::Config as BW6Config>::X_IS_NEGATIVE;
+    const X_MINUS_1_DIV_3: <ark_bw6_761::Fq as PrimeField>::BigInt = <ark_bw6_761::Config as BW6Config>::X_MINUS_1_DIV_3;
+    const ATE_LOOP_COUNT_1: &'static [u64] = <ark_bw6_761::Config as BW6Config>::ATE_LOOP_COUNT_1;
+    const ATE_LOOP_COUNT_1_IS_NEGATIVE: bool = <ark_bw6_761::Config as BW6Config>::ATE_LOOP_COUNT_1_IS_NEGATIVE;
+    const ATE_LOOP_COUNT_2: &'static [i8] = <ark_bw6_761::Config as BW6Config>::ATE_LOOP_COUNT_2;
+    const ATE_LOOP_COUNT_2_IS_NEGATIVE: bool = <ark_bw6_761::Config as BW6Config>::ATE_LOOP_COUNT_2_IS_NEGATIVE;
+    const TWIST_TYPE: bw6::TwistType = <ark_bw6_761::Config as BW6Config>::TWIST_TYPE;
+    const H_T: i64 = <ark_bw6_761::Config as BW6Config>::H_T;
+    const H_Y: i64 = <ark_bw6_761::Config as BW6Config>::H_Y;
+    const T_MOD_R_IS_ZERO: bool = <ark_bw6_761::Config as BW6Config>::T_MOD_R_IS_ZERO;
+    type Fp = ark_bw6_761::Fq;
+    type Fp3Config = ark_bw6_761::Fq3Config;
+    type Fp6Config = ark_bw6_761::Fq6Config;
+    type G1Config = ark_bw6_761::g1::Config;
+    type G2Config = ark_bw6_761::g2::Config;
+}
+
 struct Mnt4Fam<P>(PhantomData<P>);
 impl<P: MNT4Config> Fam for Mnt4Fam<P> {
     type E = MNT4<P>;
@@ -491,10 +515,16 @@ fn run<Fm: Fam>(o: &mut Out, id: &str, rng: &mut Rng, bud: &Budget) {
         o.line(&format!("multi {} {} {}", id, pts1::<E<Fm>>(&ps), pts2::<E<Fm>>(&qs)), &multi_s::<E<Fm>>(&ps, &qs));
     }
     for k in 0..bud.small {
-        let len = [1usize, 2, 0, 5, 3][k % 5];
-        let (ps, qs) = multi_lists::<E<Fm>>(rng, len, if k < 3 { 0 } else { k % 3 });
+        let (len, shape) = [(1usize, 0usize), (2, 0), (2, 1), (5, 0), (1, 1), (0, 0), (5, 2), (6, 1)][k % 8];
+        let (ps, qs) = multi_lists::<E<Fm>>(rng, len, shape);
         let m = miller_s::<E<Fm>>(&ps, &qs);
         o.line(&format!("miller {} {} {}", id, pts1::<E<Fm>>(&ps), pts2::<E<Fm>>(&qs)), &m);
+    }
+
+    {
+        // lists of different lengths (`zip_eq`): outside the property, model conformance only
+        let (ps, qs) = multi_lists::<E<Fm>>(rng, 2, 0);
+        o.line(&format!("multi {} {} {}", id, pts1::<E<Fm>>(&ps), pts2::<E<Fm>>(&qs[..1])), &multi_s::<E<Fm>>(&ps, &qs[..1]));
     }
 
     // ---- conformance + tests: final exponentiation ------------------------------------------------
@@ -726,7 +756,36 @@ fn main() {
         small: 2 * m.min(2),
     };
 
+    if tier == "selfcheck" {
+        // pure-Rust confirmation (no driver involved) of `multi_pairing = sum of pairings` on k copies of
+        // the generator pair, k = 4, 5
+        fn sc<E: Pairing>(name: &str) {
+            for k in [4usize, 5, 8, 9] {
+                let ps = vec![E::G1::generator().into_affine(); k];
+                let qs = vec![E::G2::generator().into_affine(); k];
+                let e = E::pairing(ps[0], qs[0]);
+                let sum = (0..k).fold(PairingOutput::<E>::zero(), |acc, _| acc + e);
+                let m = E::multi_pairing(ps, qs);
+                println!("{} k={} multi_pairing == k*e(G1,G2): {}", name, k, m == sum);
+            }
+        }
+        sc::<ark_bls12_381::Bls12_381>("bls12_381");
+        sc::<ark_bls12_377::Bls12_377>("bls12_377");
+        sc::<ark_bn254::Bn254>("bn254");
+        sc::<ark_mnt4_298::MNT4_298>("mnt4_298");
+        sc::<ark_mnt6_298::MNT6_298>("mnt6_298");
+        sc::<ark_bw6_761::BW6_761>("bw6_761");
+        sc::<ark_bw6_767::BW6_767>("bw6_767");
+        return;
+    }
+    let tiny = Budget { grid: vec![1, 0], conf_pairings: 2 * m, conf_multi: vec![2, 5], test_rounds: 1, small: 2 };
     let want = |id: &str| only.as_deref().map_or(true, |x| x == id);
+    if want("tc_bls381") {
+        run::<BlsFam<ark_test_curves::bls12_381::Config>>(&mut o, "tc_bls381", &mut rng, &tiny);
+    }
+    if want("bw6_761g") {
+        run::<Bw6Fam<Bw6_761Generic, 0>>(&mut o, "bw6_761g", &mut rng, &tiny);
+    }
     if want("bls381") {
         run::<BlsFam<ark_bls12_381::Config>>(&mut o, "bls381", &mut rng, &mid);
     }
